@@ -884,7 +884,7 @@ impl<Backing : AsRef<[u32]> + AsMut<[u32]>> DrawTarget<Backing> {
             combined_bounds.to_box2d(),
             combined_bounds.to_box2d(),
             options.blend_mode,
-            1.,
+            options.alpha,
         );
     }
 }
